@@ -512,7 +512,9 @@ struct UIn {
   uint64_t n = 0;
   long double total = 0;
   std::vector<uint64_t> sample_ids;
+  std::vector<uint64_t> exact_ids;   // samples the input holds with their exact input weight
   bool sampling = false;
+  void take(const ReadOut& ro) { for (auto& p : ro.items) { sample_ids.push_back(p.first); if (p.first < W.size() && p.second == W[p.first]) exact_ids.push_back(p.first); } }
 };
 
 struct UModel {
@@ -521,9 +523,11 @@ struct UModel {
   long double total = 0;
   uint64_t sum_samples = 0;
   std::vector<uint64_t> allowed;   // ids flagged in allowed_flag
-  void clear() { n = 0; total = 0; sum_samples = 0; for (uint64_t id : allowed) allowed_flag[id] = 0; allowed.clear(); }
+  std::vector<uint64_t> exact;     // ids some input holds with the exact input weight
+  void clear() { n = 0; total = 0; sum_samples = 0; for (uint64_t id : allowed) allowed_flag[id] = 0; allowed.clear(); exact.clear(); }
   void add(const UIn& in) {
     n += in.n; total += in.total; sum_samples += in.sample_ids.size();
+    exact.insert(exact.end(), in.exact_ids.begin(), in.exact_ids.end());
     for (uint64_t id : in.sample_ids) { if (!allowed_flag[id]) { allowed_flag[id] = 1; allowed.push_back(id); } }
   }
 };
@@ -574,6 +578,20 @@ static bool check_union_result(const VU& u, const UModel& um, const char* after,
     others.erase(std::unique(others.begin(), others.end()), others.end());
     VF_CHECK(others.size() <= 1, fam + "|result|adjusted-weight-neither-input-weight-nor-common-threshold",
              ctx() + " distinct-non-input-values=" + std::to_string(others.size()) + " first=" + str(others.empty() ? 0.0 : others[0]) + " second=" + str(others.size() > 1 ? others[1] : 0.0));
+    if (others.size() == 1) {
+      // every item an input still holds with its exact weight and that is heavier than the result's threshold
+      // must be in the result with that exact weight
+      const double tau = others[0], thr = tau * (1 + REL);
+      size_t nheavy = 0;
+      for (uint64_t id : um.exact) {
+        if (W[id] > thr) {
+          ++nheavy;
+          if (adj_scratch[id] < 0) { checked(); fail(fam + "|result|heavy-item-missing", ctx() + " id=" + std::to_string(id) + " w=" + str(W[id]) + " tau=" + str(tau)); }
+          else VF_CHECK(adj_scratch[id] == W[id], fam + "|result|heavy-item-weight-altered", ctx() + " id=" + std::to_string(id) + " w=" + str(W[id]) + " adj=" + str(adj_scratch[id]) + " tau=" + str(tau));
+        }
+      }
+      if (nheavy) count("union_result_with_heavy_items");
+    }
   }
   for (uint64_t id : touched) adj_scratch[id] = -1.0;
   if (ok) VF_CHECK(close_rel(ro.sum, um.total, REL), fam + "|result|total-weight-not-preserved", ctx() + " sum=" + str(static_cast<double>(ro.sum)) + " total=" + str(static_cast<double>(um.total)) + " size=" + std::to_string(ro.items.size()));
@@ -585,11 +603,28 @@ static bool check_union_result(const VU& u, const UModel& um, const char* after,
 }
 
 static VU union_round_trip(const VU& u, Rng& r) {
-  if (r.coin()) {
-    auto b = u.serialize();
-    VF_CHECK(b.size() == u.get_serialized_size_bytes(), "union|serialize|size-mismatch", "bytes=" + std::to_string(b.size()));
-    count("union_roundtrip_bytes");
-    return VU::deserialize(b.data(), b.size());
+  // coverage only (private state): layout of the H-region marks that get packed 8 per byte
+  const uint32_t h = u.gadget_.h_;
+  bool mixed = false;        // an unmarked H item in a later mark byte at a bit position that is marked in an earlier byte
+  bool mixed_rev = false;    // a marked one after an unmarked one at the same bit position
+  if (u.n_ > 0 && u.gadget_.marks_ != nullptr && h >= 9) {
+    for (uint32_t j = 8; j < h && !(mixed && mixed_rev); ++j)
+      for (uint32_t i = j & 7; i < j; i += 8) {
+        if (u.gadget_.marks_[i] && !u.gadget_.marks_[j]) mixed = true;
+        if (!u.gadget_.marks_[i] && u.gadget_.marks_[j]) mixed_rev = true;
+      }
+  }
+  const uint64_t mode = r.below(3);
+  const char* mname = mode == 0 ? "bytes" : (mode == 1 ? "bytes_header" : "stream");
+  if (h >= 9) count(std::string("union_ser_") + mname + "_gadget_h_ge9");
+  if (mixed) count(std::string("union_ser_") + mname + "_h_ge9_unmarked_after_marked_across_mark_bytes");
+  if (mixed_rev) count(std::string("union_ser_") + mname + "_h_ge9_marked_after_unmarked_across_mark_bytes");
+  if (mode < 2) {
+    const unsigned hdr = mode == 0 ? 0 : static_cast<unsigned>(r.range(1, 64));
+    auto b = u.serialize(hdr);
+    VF_CHECK(b.size() == hdr + u.get_serialized_size_bytes(), "union|serialize|size-mismatch", "bytes=" + std::to_string(b.size()) + " header=" + std::to_string(hdr));
+    count(mode == 0 ? "union_roundtrip_bytes" : "union_roundtrip_bytes_header");
+    return VU::deserialize(b.data() + hdr, b.size() - hdr);
   }
   std::stringstream ss(std::ios::in | std::ios::out | std::ios::binary);
   u.serialize(ss);
@@ -599,9 +634,10 @@ static VU union_round_trip(const VU& u, Rng& r) {
 
 static void union_case(Rng& r) {
   const bool T = G().thorough();
-  const int profile = static_cast<int>(r.below(6));
+  const int profile = static_cast<int>(r.below(7));
   const size_t m = static_cast<size_t>(r.range(2, 6));
-  // profile: 0 random mix; 1 identical weights/k/n (equal tau); 2 one exact + sampling ones; 3 all exact; 4 with empties; 5 tiny k
+  // profile: 0 random mix; 1 identical weights/k/n (equal tau); 2 one exact + sampling ones; 3 all exact; 4 with empties; 5 tiny k;
+  //          6 a small-k sampling sketch first, then exact ones, roomy max_k, union serialized in between (marked and unmarked H items share mark bytes)
   std::vector<UIn> ins(m);
   const int common_kind = static_cast<int>(r.below(K_TAUADJ));   // tau-adjacent generator is for single streams
   const uint32_t common_k = profile == 5 ? static_cast<uint32_t>(r.range(1, 3)) : pick_k(r, T ? 600 : 300);
@@ -618,6 +654,7 @@ static void union_case(Rng& r) {
       case 3: f.k = pick_k(r, 300); f.n = r.below(f.k + 1); f.kind = static_cast<int>(r.below(K_TAUADJ)); break;
       case 4: f.k = pick_k(r, 300); f.n = r.chance(0.4) ? 0 : pick_n(r, f.k, cap); f.kind = static_cast<int>(r.below(K_TAUADJ)); break;
       case 5: f.k = static_cast<uint32_t>(r.range(1, 3)); f.n = pick_n(r, f.k, 200); f.kind = static_cast<int>(r.below(K_TAUADJ)); break;
+      case 6: f.k = static_cast<uint32_t>(r.range(9, 60)); f.n = i == 0 ? f.k + 1 + r.below(4ull * f.k) : 1 + r.below(f.k); f.kind = static_cast<int>(r.below(K_TAUADJ)); break;
       default: f.k = pick_k(r, T ? 600 : 300); f.n = pick_n(r, f.k, cap); f.kind = r.chance(0.5) ? common_kind : static_cast<int>(r.below(K_TAUADJ)); break;
     }
     UIn& in = ins[i];
@@ -628,7 +665,7 @@ static void union_case(Rng& r) {
     describe(d + "... building input " + std::to_string(i) + " k=" + std::to_string(f.k) + " n=" + std::to_string(f.n) + " kind=" + kind_name(f.kind));
     alive = feed_stream(er, in.sk, sm, f, &ro);
     in.n = sm.n; in.total = sm.total; in.sampling = sm.n > sm.k;
-    for (auto& p : ro.items) in.sample_ids.push_back(p.first);
+    in.take(ro);
     d += "(k=" + std::to_string(f.k) + ",n=" + std::to_string(sm.n) + "," + kind_name(f.kind) + ")";
   }
   if (!alive) return;
@@ -645,6 +682,7 @@ static void union_case(Rng& r) {
     case 5: um.max_k = static_cast<uint32_t>(std::max<uint64_t>(1, tot_samples / 2)); break;
     default: um.max_k = static_cast<uint32_t>(r.range(1, 700)); break;
   }
+  if (profile == 6 && r.chance(0.7)) um.max_k = static_cast<uint32_t>(tot_samples + 1 + r.below(50));
   d += " max_k=" + std::to_string(um.max_k);
   describe(d);
   count("union_profile_" + std::to_string(profile));
@@ -652,8 +690,20 @@ static void union_case(Rng& r) {
   check_union_result(*u, um, "construction", nullptr, nullptr);
   std::vector<size_t> order(m);
   for (size_t i = 0; i < m; ++i) order[i] = i;
-  r.shuffle(order);
+  if (profile != 6) r.shuffle(order);
   bool fed_exact = false, fed_sampling = false;
+  // once the union has been serialized and restored, the original (never serialized) object is kept as a twin:
+  // it receives the same inputs under the same pinned seeds and must keep giving the same result
+  std::unique_ptr<VU> twin;
+  auto twin_agrees = [&](const char* when) {
+    if (!twin) return;
+    const uint64_t X = r.next();
+    random_utils::rand.seed(X); VO ra = u->get_result();
+    random_utils::rand.seed(X); VO rb = twin->get_result();
+    VF_CHECK(same_readout(ra, rb), "union|round-trip|restored-result-differs-from-unserialized-twin", d + " " + when + " restored(n=" + std::to_string(ra.get_n()) + ",samples=" + std::to_string(ra.get_num_samples()) +
+             ") twin(n=" + std::to_string(rb.get_n()) + ",samples=" + std::to_string(rb.get_num_samples()) + ")");
+    count("union_twin_comparisons");
+  };
   VO last_result(1); bool have_result = false;
   for (size_t step = 0; step < m; ++step) {
     UIn& in = ins[order[step]];
@@ -664,8 +714,11 @@ static void union_case(Rng& r) {
       catch (const std::exception& e) { checked(); fail("sketch|round-trip|throws", d + " what=" + e.what()); }
     }
     try {
+      const uint64_t UX = r.next();
+      random_utils::rand.seed(UX);
       if (r.coin()) { u->update(*src); count("union_update_lvalue"); }
       else { VO tmp(*src); u->update(std::move(tmp)); count("union_update_rvalue"); }
+      if (twin) { random_utils::rand.seed(UX); twin->update(*src); count("union_twin_updates_after_round_trip"); }
     } catch (const std::exception& e) {
       checked(); fail("union|update|throws", d + " step=" + std::to_string(step) + " what=" + e.what());
       return;
@@ -673,8 +726,14 @@ static void union_case(Rng& r) {
     um.add(in);
     if (in.n > 0) { if (in.sampling) fed_sampling = true; else fed_exact = true; }
     if (in.n == 0) count("union_fed_empty"); else if (in.sampling) count("union_fed_sampling"); else count("union_fed_exact");
-    if (r.chance(0.15)) {
-      try { std::unique_ptr<VU> t(new VU(union_round_trip(*u, r))); u = std::move(t); count(um.n ? "union_round_trip_midway" : "union_round_trip_empty"); }
+    if (r.chance(profile == 6 ? 0.8 : 0.25)) {
+      try {
+        std::unique_ptr<VU> t(new VU(union_round_trip(*u, r)));
+        if (!twin) twin = std::move(u);
+        u = std::move(t);
+        count(um.n ? "union_round_trip_midway" : "union_round_trip_empty");
+        twin_agrees("right after the round trip");
+      }
       catch (const std::exception& e) { checked(); fail("union|round-trip|throws", d + " step=" + std::to_string(step) + " what=" + e.what()); return; }
     }
     if (r.chance(0.08)) { if (r.coin()) { std::unique_ptr<VU> t(new VU(*u)); u = std::move(t); } else { VU t(1); t = std::move(*u); u.reset(new VU(std::move(t))); } count("union_copy_or_move"); }
@@ -703,6 +762,7 @@ static void union_case(Rng& r) {
           const uint64_t X = r.next();
           random_utils::rand.seed(X); u->update(*nx.sk);
           random_utils::rand.seed(X); t->update(*nx.sk);
+          if (twin) { random_utils::rand.seed(X); twin->update(*nx.sk); }
           um.add(nx);
           if (nx.n > 0) { if (nx.sampling) fed_sampling = true; else fed_exact = true; }
           if (nx.n == 0) count("union_fed_empty"); else if (nx.sampling) count("union_fed_sampling"); else count("union_fed_exact");
@@ -715,10 +775,11 @@ static void union_case(Rng& r) {
     if (step + 1 == m || r.chance(0.6)) {
       have_result = check_union_result(*u, um, step + 1 == m ? "last update" : "update", &last_result, nullptr);
       if (!have_result) return;
+      twin_agrees("at a later get_result");
       // get_result is const: asking twice must be answerable again with the same n and total
       if (r.chance(0.2)) check_union_result(*u, um, "repeated get_result", nullptr, nullptr);
     }
-    if (r.chance(0.03) && step + 1 < m) { u->reset(); um.clear(); fed_exact = fed_sampling = false; count("union_reset"); check_union_result(*u, um, "reset", nullptr, nullptr); }
+    if (r.chance(0.03) && step + 1 < m) { u->reset(); twin.reset(); um.clear(); fed_exact = fed_sampling = false; count("union_reset"); check_union_result(*u, um, "reset", nullptr, nullptr); }
   }
   if (fed_exact && fed_sampling) count("union_exact_and_sampling_inputs");
   // stage 2: the result is itself a sketch: round trip it, feed it to another union, keep updating it
@@ -735,7 +796,7 @@ static void union_case(Rng& r) {
     } else if (c < 6) {
       // chained union: result + fresh sketches
       UIn rin; rin.n = um.n; rin.total = um.total;
-      { ReadOut ro = read_out(last_result); for (auto& p : ro.items) rin.sample_ids.push_back(p.first); }
+      { ReadOut ro = read_out(last_result); rin.take(ro); }
       UModel um2; um2.max_k = static_cast<uint32_t>(r.range(1, 400));
       for (uint64_t id : um.allowed) allowed_flag[id] = 0;   // provenance now relative to the second union's inputs
       VU u2(um2.max_k);
@@ -743,7 +804,7 @@ static void union_case(Rng& r) {
       UIn fresh; fresh.sk.reset(new VO(f.k, static_cast<resize_factor>(f.rf)));
       SkModel sm; sm.k = f.k; ReadOut ro;
       if (!feed_stream(r, fresh.sk, sm, f, &ro)) return;
-      fresh.n = sm.n; fresh.total = sm.total; for (auto& p : ro.items) fresh.sample_ids.push_back(p.first);
+      fresh.n = sm.n; fresh.total = sm.total; fresh.take(ro);
       describe(d + " chained max_k2=" + std::to_string(um2.max_k) + " fresh(k=" + std::to_string(f.k) + ",n=" + std::to_string(sm.n) + ")");
       try {
         if (r.coin()) { u2.update(last_result); um2.add(rin); check_union_result(u2, um2, "chained: result fed", nullptr, nullptr); u2.update(*fresh.sk); um2.add(fresh); }
